@@ -23,6 +23,14 @@ _ALPHA = string.ascii_letters
 _ALNUM = string.ascii_letters + string.digits + "_"
 
 
+def kind_of(i, k=4):
+    """Case kind for index i.  Every aligned group of k consecutive indices holds each
+    kind once, and the kind at a fixed position rotates from one block of 16 to the
+    next, so that the round-robin shards of 8 or 16 workers (i = w + W*j) all see
+    every kind (even load; violations of one kind are not piled on two workers)."""
+    return (i + i // 16) % k
+
+
 def rand_identifier(rng, underscore=None):
     k = int(rng.integers(1, 7))
     s = _ALPHA[int(rng.integers(0, len(_ALPHA)))]
